@@ -183,6 +183,7 @@ pub fn gen_spec(rng: &mut Rng, st: &mut Stats) -> Option<(CmdSpec, clap::Command
     match gate(&spec) {
         Ok(c) => {
             st.count("gate.accepted");
+            st.accepted_seeds.push(st.case_seed);
             Some((spec, c))
         }
         Err(p) => {
